@@ -13,23 +13,49 @@ theorem translator_complete : Gen.missing = [] := by decide
 
 theorem skeleton_unchanged :
     (Gen.Skel.conds_parseAccept,
+     Gen.Skel.stmts_parseAccept,
      Gen.Skel.conds_expectQuality,
+     Gen.Skel.stmts_expectQuality,
      Gen.Skel.conds_negotiateContentType,
+     Gen.Skel.stmts_negotiateContentType,
      Gen.Skel.conds_negotiateContentEncoding,
+     Gen.Skel.stmts_negotiateContentEncoding,
      Gen.Skel.conds_streamHTTP_SendMsg,
      Gen.Skel.stmts_streamHTTP_SendMsg,
      Gen.Skel.conds_streamHTTP_writeMsg,
+     Gen.Skel.stmts_streamHTTP_writeMsg,
      Gen.Skel.conds_NewMux,
-     Gen.Skel.stmts_NewMux)
+     Gen.Skel.stmts_NewMux,
+     Gen.Skel.conds_path_addRule,
+     Gen.Skel.stmts_path_addRule,
+     Gen.Skel.conds_fieldPath,
+     Gen.Skel.stmts_fieldPath,
+     Gen.Skel.conds_mutablePath,
+     Gen.Skel.stmts_mutablePath,
+     Gen.Skel.conds_ownField,
+     Gen.Skel.stmts_ownField)
   = (Expected.C04.conds_parseAccept,
+     Expected.C04.stmts_parseAccept,
      Expected.C04.conds_expectQuality,
+     Expected.C04.stmts_expectQuality,
      Expected.C04.conds_negotiateContentType,
+     Expected.C04.stmts_negotiateContentType,
      Expected.C04.conds_negotiateContentEncoding,
+     Expected.C04.stmts_negotiateContentEncoding,
      Expected.C04.conds_streamHTTP_SendMsg,
      Expected.C04.stmts_streamHTTP_SendMsg,
      Expected.C04.conds_streamHTTP_writeMsg,
+     Expected.C04.stmts_streamHTTP_writeMsg,
      Expected.C04.conds_NewMux,
-     Expected.C04.stmts_NewMux) := rfl
+     Expected.C04.stmts_NewMux,
+     Expected.C04.conds_path_addRule,
+     Expected.C04.stmts_path_addRule,
+     Expected.C04.conds_fieldPath,
+     Expected.C04.stmts_fieldPath,
+     Expected.C04.conds_mutablePath,
+     Expected.C04.stmts_mutablePath,
+     Expected.C04.conds_ownField,
+     Expected.C04.stmts_ownField) := rfl
 
 /-- the response type is the request's own (the default) or a registered type that an Accept
 range with q ≠ 0 admits — for every Accept header whatsoever (any bytes, any number of
